@@ -370,6 +370,7 @@ fn c10_paused_add(n: usize, t: u32, tmax: u32) {
     std::mem::forget(rt);
 }
 rt_harness!(c10_paused_add_n1t8, 5, c10_paused_add(1, 8, 3));
+rt_harness!(c10_paused_add_n2t1, 5, c10_paused_add(2, 1, 3));
 rt_harness!(c10_paused_add_n1t2, 5, c10_paused_add(1, 2, 3));
 
 /// dispatch_events_until(T') dispatches exactly the events with timestamp <= T'
